@@ -108,7 +108,7 @@ def run(tier):
     if dev:
         chk.cov["dev_layers_only"] = dev
     # ---- (a) generated programs of the integer fragment
-    for label, consts in (JOBS[tier] if on("a") else []):
+    for label, consts in ((JOBS[tier] + langpipe.ext_jobs(tier)) if on("a") else []):
         # delay times of zero samples are part of C01 (VM = WASM) although C02 says nothing about them
         reps = langpipe.generate(chk, label, dict({"DelayTimes": '"withzero"'}, **consts),
                                  timeout=3000)
@@ -123,8 +123,9 @@ def run(tier):
             if crash or out is None:
                 chk.violation(f"runtime process died: {crash}\n{req['src']}", case, key=key)
                 continue
-            if not any(", 0)" in l and "delay(" in l for l in req["src"].split("\n")):
-                # (programs with a zero delay time are compared backend against backend only)
+            if not label.startswith("x_") and not any(", 0)" in l and "delay(" in l for l in req["src"].split("\n")):
+                # (programs with a zero delay time, and the jobs over constructs outside C02's list - arrays, numeric
+                # match -, are compared backend against backend only)
                 for be in ("vm", "wasm"):
                     d = langpipe.compare_outputs(rep, out[be])
                     if d:
